@@ -27,7 +27,7 @@ type editCase struct {
 
 func genEditCase(t *rapid.T) editCase {
 	c := editCase{Delta: gen.LogF(t, 0.2, 0.55, "delta"), Iters: rapid.IntRange(1, 5).Draw(t, "iters")}
-	c.Editor = rapid.SampledFrom([]string{"mcsearch", "mcinterior", "searchfilter", "flatten", "elimedges", "dcrepair", "dc", "dcrepair-lattice", "dcrepair-lattice", "mssearch", "decimate"}).Draw(t, "editor")
+	c.Editor = rapid.SampledFrom([]string{"mcsearch", "mcsearch-aligned", "mcsearch-aligned", "mcinterior", "searchfilter", "flatten", "elimedges", "dcrepair", "dc", "dcrepair-lattice", "dcrepair-lattice", "mssearch", "decimate"}).Draw(t, "editor")
 	switch c.Editor {
 	case "mssearch":
 		c.Tree2 = gen.Node2Gen(t, 2, 4, "tree2")
@@ -35,6 +35,21 @@ func genEditCase(t *rapid.T) editCase {
 		// checkerboard-like lattices give dual contouring many singular edges and vertices to repair
 		l := gen.Lattice3Gen(t, 4, "lattice")
 		c.Lat = &l
+	case "mcsearch-aligned":
+		// boxes whose faces pass exactly through lattice points, bisected until the vertices of several
+		// lattice edges land on the same coordinate (a lattice corner): the in-place vertex rewrite then
+		// merges vertices, which a stale or incrementally patched index gets wrong
+		c.Delta = rapid.SampledFrom([]float64{0.5, 0.25, 1}).Draw(t, "adelta")
+		c.Iters = rapid.IntRange(50, 64).Draw(t, "aiters")
+		c.Tree = &gen.Node{Op: "join"}
+		for i, n := 0, rapid.IntRange(1, 2).Draw(t, "nboxes"); i < n; i++ {
+			var a, b kit.V3
+			for k := 0; k < 3; k++ {
+				a[k] = float64(rapid.IntRange(-2, 2).Draw(t, "lo")) * c.Delta
+				b[k] = a[k] + float64(rapid.IntRange(1, 3).Draw(t, "ext"))*c.Delta
+			}
+			c.Tree.Kids = append(c.Tree.Kids, &gen.Node{Op: "prim", Shape: &gen.Shape3{Kind: "rect", A: a, B: b}})
+		}
 	case "flatten":
 		// a shape with a clearly defined flat base: a box or a z-aligned cylinder, possibly joined with a ball on top
 		base := gen.Shape3{Kind: "rect", A: kit.V3{-0.8, -0.6, 0}, B: kit.V3{0.7, 0.9, gen.F(t, 0.4, 1, "h")}}
@@ -70,7 +85,7 @@ func checkEditCase(c editCase, o *kit.Obs) error {
 	}
 	var m *model3d.Mesh
 	switch c.Editor {
-	case "mcsearch":
+	case "mcsearch", "mcsearch-aligned":
 		m = model3d.MarchingCubesSearch(solid, c.Delta, c.Iters)
 	case "mcinterior":
 		m, _ = model3d.MarchingCubesInterior(solid, c.Delta, c.Iters)
@@ -111,6 +126,17 @@ func checkEditCase(c editCase, o *kit.Obs) error {
 		return nil
 	}
 	o.NonTrivial()
+	if c.Editor == "mcsearch-aligned" {
+		deg := 0
+		for _, f := range tbl {
+			if degenerate3(f) {
+				deg++
+			}
+		}
+		if deg > 0 {
+			o.Label("aligned:vertices-merged")
+		}
+	}
 	s := &meshState3{m: m, tbl: tbl, present: map[*model3d.Triangle]bool{}}
 	for _, f := range tbl {
 		s.present[f] = true
